@@ -50,6 +50,10 @@ pub struct Layout {
     /// specification defines as "unknown" - a valid archive from a writer that does not keep statistics
     #[serde(default)]
     pub zero_counters: u8,
+    /// a content that is a proper prefix of another stored content is addressed *inside* that content (same
+    /// offset, shorter length) instead of getting bytes of its own
+    #[serde(default)]
+    pub overlap_prefixes: bool,
 }
 
 /// Hostile edits applied while assembling (C08): varint values of chosen directories, header
@@ -104,6 +108,7 @@ pub struct Facts {
     pub gapped: bool,
     pub non_eliding: bool,
     pub data_not_last: bool,
+    pub prefix_overlap: bool,
     pub gap_after_dir: bool,
     pub empty_meta: bool,
 }
@@ -373,6 +378,15 @@ fn build_plain(l: &Layout) -> Built {
                 at.insert(*ci, data.len() as u64);
                 data.extend_from_slice(&contents[*ci]);
             }
+            if l.overlap_prefixes {
+                let placed: Vec<usize> = at.keys().copied().collect();
+                for ci in &placed {
+                    if let Some(cj) = placed.iter().find(|cj| contents[**cj].len() > contents[*ci].len() && contents[**cj].starts_with(&contents[*ci])) {
+                        let o = at[cj];
+                        at.insert(*ci, o);
+                    }
+                }
+            }
             for (id, run, ci) in &ids {
                 tile_entries.push(SEntry { id: *id, off: at[ci], len: contents[*ci].len() as u32, run: *run });
             }
@@ -520,6 +534,10 @@ fn build_plain(l: &Layout) -> Built {
         gapped: l.gaps.iter().any(|g| *g > 0) || (l.leaf_gap > 0 && t.depth > 1),
         non_eliding: !l.elide && tile_entries.len() >= 2,
         data_not_last: perm[3] != 3,
+        prefix_overlap: {
+            let mut seen: std::collections::BTreeMap<u64, u32> = std::collections::BTreeMap::new();
+            tile_entries.iter().any(|e| seen.insert(e.off, e.len).map_or(false, |l| l != e.len))
+        },
         gap_after_dir: {
             // a gap follows the root or the leaf section
             let pos_root = perm.iter().position(|s| *s == 0).unwrap_or(0);
